@@ -2,10 +2,112 @@ package spec
 
 import (
 	"go/ast"
+	"go/types"
+	"sort"
 	"strings"
 
 	"lndlint/internal/an"
 )
+
+// c10RecvField returns the name of the field of the method receiver that e
+// (after &, parentheses, slicing) is rooted in when that field has the type
+// lnwire.ExtraOpaqueData; exact reports that e is the field itself (or its
+// address), not a part of it.
+func c10RecvField(f *an.Func, e ast.Expr) (field string, exact bool) {
+	exact = true
+	for {
+		switch x := ast.Unparen(e).(type) {
+		case *ast.UnaryExpr:
+			e = x.X
+			continue
+		case *ast.SliceExpr:
+			exact = false
+			e = x.X
+			continue
+		case *ast.IndexExpr:
+			exact = false
+			e = x.X
+			continue
+		case *ast.SelectorExpr:
+			if an.TypeID(f.Info().TypeOf(x)) != "lnwire.ExtraOpaqueData" {
+				return "", false
+			}
+			if !strings.HasPrefix(f.Canon(x), "$recv.") {
+				return "", false
+			}
+			return x.Sel.Name, exact
+		}
+		return "", false
+	}
+}
+
+// c10HasExtraField: the named lnwire type has a field of type ExtraOpaqueData.
+func c10HasExtraField(p *an.Prog, typeID string) bool {
+	T := p.LookupType("lnwire", strings.TrimPrefix(typeID, "lnwire."))
+	if T == nil {
+		return false
+	}
+	for _, t := range an.StructFieldTypes(T) {
+		if an.TypeID(t) == "lnwire.ExtraOpaqueData" {
+			return true
+		}
+	}
+	return false
+}
+
+// c10KnownTypeNumbers returns the TLV type numbers named by the elements of a
+// `[]tlv.Type{X.TlvType(), ...}` literal; bad lists the elements that are not
+// of that form.
+func c10KnownTypeNumbers(f *an.Func, lit *ast.CompositeLit) (nums map[string]bool, bad []string) {
+	nums = map[string]bool{}
+	for _, el := range lit.Elts {
+		c, ok := ast.Unparen(el).(*ast.CallExpr)
+		if ok && len(c.Args) == 0 {
+			if sel, ok := ast.Unparen(c.Fun).(*ast.SelectorExpr); ok && sel.Sel.Name == "TlvType" {
+				t := f.Info().TypeOf(sel.X)
+				if pt, ok := t.(*types.Pointer); ok {
+					t = pt.Elem()
+				}
+				if n := an.TlvNumberOf(t); n != "" {
+					nums[n] = true
+					continue
+				}
+			}
+		}
+		bad = append(bad, an.Text(el))
+	}
+	return nums, bad
+}
+
+// c10ProducerNumbers returns the TLV type numbers of the producers that the
+// function (closures included) appends to the local slice obj.
+func c10ProducerNumbers(f *an.Func, obj types.Object) (nums map[string]bool, untyped []string) {
+	nums = map[string]bool{}
+	info := f.Info()
+	ast.Inspect(f.Body, func(n ast.Node) bool {
+		ap, ok := n.(*ast.CallExpr)
+		if !ok || an.CalleeID(info, ap) != "builtin.append" || len(ap.Args) < 2 {
+			return true
+		}
+		a0, ok := ast.Unparen(ap.Args[0]).(*ast.Ident)
+		if !ok || info.Uses[a0] != obj {
+			return true
+		}
+		for _, a := range ap.Args[1:] {
+			t := info.TypeOf(a)
+			if pt, ok := t.(*types.Pointer); ok {
+				t = pt.Elem()
+			}
+			if num := an.TlvNumberOf(t); num != "" {
+				nums[num] = true
+			} else {
+				untyped = append(untyped, an.Text(a))
+			}
+		}
+		return true
+	})
+	return nums, untyped
+}
 
 // unknownRecordsSurvive: Decode keeps the whole extension TLV stream in the
 // message's extra-data field; an Encode that re-packs that field from the
@@ -15,42 +117,100 @@ import (
 func unknownRecordsSurvive(r *an.Run) {
 	p := r.Prog
 	r.Obl("unknown-records-survive-reencoding", "MIRROR",
-		"no Encode method of a wire message re-packs its extension data through lnwire.EncodeMessageExtraData (which overwrites the field with the given typed records only); a message with typed extension records uses EncodeMessageExtraDataKeepUnknown, naming exactly the types of the producers it passes, or writes the stored bytes unchanged",
+		"no method of a wire message re-packs its stored extension data from typed records only: not through lnwire.EncodeMessageExtraData, not by calling PackRecords on the receiver's ExtraOpaqueData field, and neither helper is taken as a function value anywhere in lnwire; a message with typed extension records uses EncodeMessageExtraDataKeepUnknown on that field, naming as known exactly the TLV types of the producers it passes, or writes the stored bytes unchanged (WriteBytes gets the field itself, not a part of it; MergeAndEncode gets the field itself as the existing data); Decode stores the whole stream it read into that field, restricted by nothing but the stream being non-empty; EncodeMessageExtraDataKeepUnknown packs the typed records together with the existing records minus the known types whenever the stored stream is non-empty and parses",
 		"a record of an unknown odd type must be ignored, not removed: removing it changes the bytes a gossip signature covers (channel_update) and breaks the canonical fixpoint decode-encode for every message", 14,
 		func(o *an.Obl) {
 			n := 0
+			isMsg := map[string]bool{}
+			for _, mt := range messageTypes(p) {
+				isMsg["lnwire."+mt.name] = true
+			}
 			for _, f := range p.Funcs(false, "lnwire") {
-				if f.Lit != nil || !strings.HasSuffix(f.ID, ".Encode") {
+				if f.Lit != nil {
 					continue
 				}
+				switch f.ID {
+				case "lnwire.EncodeMessageExtraData", "lnwire.EncodeMessageExtraDataKeepUnknown":
+					continue
+				}
+				// the helpers are only ever called
+				for _, where := range c08ValuesTaken(f, "EncodeMessageExtraData", "EncodeMessageExtraDataKeepUnknown", "PackRecords") {
+					o.FailAt(f.ID+"#repacks-through-value", where, "%s takes a function value of a re-packing helper; what it overwrites cannot be decided", f.ID)
+				}
+				owner := f.ID[:strings.LastIndex(f.ID, ".")]
+				method := isMsg[owner]
 				for _, fn := range append([]*an.Func{f}, f.Lits...) {
 					for _, s := range fn.AllCalls(false) {
-						id := an.CalleeID(fn.Info(), s.Node.(*ast.CallExpr))
+						c := s.Node.(*ast.CallExpr)
+						id := an.CalleeID(fn.Info(), c)
 						switch id {
 						case "lnwire.EncodeMessageExtraData":
 							n++
 							o.Site("%s re-packs its extension data from typed records only", f.ID)
 							o.FailAt(f.ID+"#drops-unknown-records", s.Where(), "%s re-packs its extension data with EncodeMessageExtraData: records of unknown types that Decode kept are not written back", f.ID)
-						case "lnwire.EncodeMessageExtraDataKeepUnknown":
-							n++
-							c := s.Node.(*ast.CallExpr)
-							o.Site("%s keeps unknown records (known types %s)", f.ID, an.Text(c.Args[1]))
-							// every producer handed over is named as known, and nothing else
-							known := an.Text(c.Args[1])
-							lit, ok := c.Args[1].(*ast.CompositeLit)
-							if !ok {
-								o.FailAt(f.ID+"#known-types", s.Where(), "the known types are %s, expected a literal list", known)
+						case "lnwire.ExtraOpaqueData.PackRecords":
+							sel, ok := ast.Unparen(c.Fun).(*ast.SelectorExpr)
+							if !ok || !method {
 								continue
 							}
-							var prods []string
-							ast.Inspect(f.Body, func(m ast.Node) bool {
-								if ap, ok := m.(*ast.CallExpr); ok && an.Text(ap.Fun) == "append" && len(ap.Args) == 2 && an.Text(ap.Args[0]) == "recordProducers" {
-									prods = append(prods, strings.TrimPrefix(an.Text(ap.Args[1]), "&"))
+							if fld, _ := c10RecvField(fn, sel.X); fld != "" {
+								n++
+								o.FailAt(f.ID+"#packs-over-stored-extension", s.Where(), "%s overwrites its stored extension data (%s) with PackRecords: records of unknown types that Decode kept are not written back", f.ID, fld)
+							}
+						case "lnwire.WriteBytes":
+							if !method || len(c.Args) != 2 {
+								continue
+							}
+							if fld, exact := c10RecvField(fn, c.Args[1]); fld != "" {
+								o.Site("%s writes the stored extension data %s", f.ID, fn.Canon(c.Args[1]))
+								if !exact {
+									o.FailAt(f.ID+"#writes-part-of-extension", s.Where(), "%s writes %s, a part of the stored extension data %s, instead of all of it", f.ID, an.Text(c.Args[1]), fld)
 								}
-								return true
-							})
-							if len(lit.Elts) != len(prods) {
-								o.FailAt(f.ID+"#known-types-count", s.Where(), "%d known types are named for %d typed records", len(lit.Elts), len(prods))
+							}
+						case "lnwire.MergeAndEncode":
+							// merges typed records, the stored stream and the custom records
+							if !method || len(c.Args) != 3 || !c10HasExtraField(p, owner) {
+								continue
+							}
+							o.Site("%s merges %s", f.ID, fn.Canon(c.Args[1]))
+							if fld, exact := c10RecvField(fn, c.Args[1]); fld == "" || !exact {
+								o.FailAt(f.ID+"#merges-without-stored-data", s.Where(), "%s merges %s as the existing extension data, expected the receiver's stored extension data field", f.ID, an.Text(c.Args[1]))
+							}
+						case "lnwire.EncodeMessageExtraDataKeepUnknown":
+							n++
+							o.Site("%s keeps unknown records (known types %s)", f.ID, an.Text(c.Args[1]))
+							if fld, exact := c10RecvField(fn, c.Args[0]); fld == "" || !exact || !method {
+								o.FailAt(f.ID+"#keeps-other-data", s.Where(), "%s re-packs %s, expected the address of the receiver's extension data field", f.ID, an.Text(c.Args[0]))
+							}
+							// every producer handed over is named as known, and nothing else
+							lit, ok := ast.Unparen(c.Args[1]).(*ast.CompositeLit)
+							if !ok {
+								o.FailAt(f.ID+"#known-types", s.Where(), "the known types are %s, expected a literal list", an.Text(c.Args[1]))
+								continue
+							}
+							known, bad := c10KnownTypeNumbers(fn, lit)
+							for _, b := range bad {
+								o.FailAt(f.ID+"#known-types-form", s.Where(), "the known type %s is not the TlvType() of a typed record", b)
+							}
+							if len(c.Args) != 3 || !c.Ellipsis.IsValid() {
+								o.FailAt(f.ID+"#producers-form", s.Where(), "expected the typed records to be passed as one slice (producers...)")
+								continue
+							}
+							pid, ok := ast.Unparen(c.Args[2]).(*ast.Ident)
+							if !ok {
+								o.FailAt(f.ID+"#producers-form", s.Where(), "the typed records are %s, expected a local slice", an.Text(c.Args[2]))
+								continue
+							}
+							prods, untyped := c10ProducerNumbers(f, fn.Info().Uses[pid])
+							for _, u := range untyped {
+								o.FailAt(f.ID+"#producer-untyped", s.Where(), "the producer %s has no static TLV type", u)
+							}
+							o.Site("%s: known %v, produced %v", f.ID, keys(known), keys(prods))
+							for _, d := range an.SetDiff(known, prods) {
+								o.FailAt(f.ID+"#known-types-count", s.Where(), "TLV type %s is named as known but no producer of that type is passed: an existing record of that type is dropped", d)
+							}
+							for _, d := range an.SetDiff(prods, known) {
+								o.FailAt(f.ID+"#known-types-count", s.Where(), "a producer of TLV type %s is passed but the type is not named as known: the record is written twice", d)
 							}
 						}
 					}
@@ -59,27 +219,177 @@ func unknownRecordsSurvive(r *an.Run) {
 			if n < 14 {
 				o.FailAt("lnwire#extension-repackers", "", "expected at least 14 messages that re-pack their extension data, found %d", n)
 			}
-			// the keeping helper: unknown = existing minus known, packed together with the typed records
-			k := p.FuncOpt("lnwire.EncodeMessageExtraDataKeepUnknown")
-			if k == nil {
-				return
-			}
-			ex := k.Calls(an.CalleeNamed("ExtractRecords"), false)
-			pk := k.Calls(an.CalleeNamed("PackRecords"), false)
-			if need(o, k, "ExtractRecords", ex, 1) && need(o, k, "PackRecords", pk, 1) {
-				dl := 0
-				for _, s := range k.AllCalls(false) {
-					c := s.Node.(*ast.CallExpr)
-					if an.Text(c.Fun) == "delete" {
-						dl++
-						if hdr := enclosingLoopHeader(k, c); hdr != "$p1" {
-							o.FailAt(k.ID+"#removed-types", s.Where(), "records are removed for the types in %s, expected the known types only", hdr)
-						}
+			// Decode of a message that keeps unknown records stores the stream it
+			// read, whenever it is non-empty
+			for _, mt := range messageTypes(p) {
+				enc, dec := p.FuncOpt("lnwire."+mt.name+".Encode"), p.FuncOpt("lnwire."+mt.name+".Decode")
+				if enc == nil || dec == nil || len(enc.Calls(an.CalleeIs("lnwire.EncodeMessageExtraDataKeepUnknown"), true)) == 0 {
+					continue
+				}
+				stores := 0
+				for _, s := range dec.Assigns(func(f *an.Func, e ast.Expr) bool {
+					fld, exact := c10RecvField(f, e)
+					return fld != "" && exact
+				}, false) {
+					as, ok := s.Node.(*ast.AssignStmt)
+					if !ok || len(as.Lhs) != 1 || len(as.Rhs) != 1 {
+						continue
+					}
+					stores++
+					rhs := dec.Canon(as.Rhs[0])
+					o.Site("%s stores %s", dec.ID, s.String())
+					id, isID := ast.Unparen(as.Rhs[0]).(*ast.Ident)
+					if !isID {
+						o.FailAt(dec.ID+"#stored-stream", s.Where(), "%s stores %s as its extension data, expected the stream variable it read", dec.ID, rhs)
+						continue
+					}
+					onlyGuards(o, dec, s, []string{`^!\(.* != nil\)$`, `^.* == nil$`, `^len\(` + regexpQuote(id.Name) + `\) != 0$`, `^len\(` + regexpQuote(id.Name) + `\) > 0$`, `^!\(.*\.HasMaxHtlc\(\)\)$`, `^.*\.HasMaxHtlc\(\)$`}, "stored extension stream")
+					// the variable is read into, once, and not otherwise assigned
+					if ws := c08WritesOf(dec, c08ObjOf(dec.Info(), id), true); len(ws) > 0 {
+						o.FailAt(dec.ID+"#stream-rewritten", s.Where(), "the stream variable %s is overwritten: %s", id.Name, ws[0])
 					}
 				}
-				if dl != 1 {
-					o.FailAt(k.ID+"#removals", k.Where(k.Body.Pos()), "expected one removal of known types from the existing records, found %d", dl)
+				if stores != 1 {
+					o.FailAt(dec.ID+"#stores-stream", dec.Where(dec.Body.Pos()), "expected exactly one store of the extension stream in %s, found %d", dec.ID, stores)
 				}
 			}
+			c10KeepUnknownBody(o, p)
 		})
+}
+
+// c10KeepUnknownBody pins the keeping helper: unknown = existing minus known,
+// packed together with the typed records, whenever the stored stream is
+// non-empty and parses.
+func c10KeepUnknownBody(o *an.Obl, p *an.Prog) {
+	k := p.FuncOpt("lnwire.EncodeMessageExtraDataKeepUnknown")
+	if k == nil {
+		o.FailAt("lnwire.EncodeMessageExtraDataKeepUnknown#missing", "", "the keeping helper is gone")
+		return
+	}
+	ex := k.Calls(an.CalleeIs("lnwire.ExtraOpaqueData.ExtractRecords"), true)
+	pk := k.Calls(an.CalleeIs("lnwire.ExtraOpaqueData.PackRecords"), true)
+	if !c08OneDirect(o, k, "ExtractRecords", ex) || !c08OneDirect(o, k, "PackRecords", pk) {
+		return
+	}
+	info := k.Info()
+	params := k.Params(false)
+	var names []string
+	for _, pv := range params {
+		names = append(names, pv.Name())
+	}
+	notReassigned(o, k, names...)
+	existing := "$p0.ExtractRecords()"
+	if got := k.Canon(ex[0].Node.(*ast.CallExpr)); got != existing {
+		o.FailAt(k.ID+"#extracts-other", ex[0].Where(), "the existing records are %s, expected %s with no typed record extracted", got, existing)
+	}
+	// what is packed: the stored field gets one local slice, spread
+	pc := pk[0].Node.(*ast.CallExpr)
+	if sel, ok := ast.Unparen(pc.Fun).(*ast.SelectorExpr); !ok || k.Canon(sel.X) != "$p0" {
+		o.FailAt(k.ID+"#packs-into-other", pk[0].Where(), "PackRecords is not called on the extension data handed in")
+	}
+	var packed types.Object
+	if len(pc.Args) == 1 && pc.Ellipsis.IsValid() {
+		if id, ok := ast.Unparen(pc.Args[0]).(*ast.Ident); ok {
+			packed = info.Uses[id]
+		}
+	}
+	if packed == nil || packed == types.Object(params[2]) {
+		o.FailAt(k.ID+"#packs-typed-only", pk[0].Where(), "PackRecords is given %s, expected the local list that also receives the unknown records", an.Text(pc))
+		return
+	}
+	// assignments of that list: initial value = the typed records; then, on the
+	// keeping path, a fresh list that gets the typed records and the unknown ones
+	unknown := "lnwire.RecordsAsProducers(lnwire.TlvMapToRecords(" + existing + "))"
+	var addTyped, addUnknown []an.Site
+	for _, s := range k.Assigns(func(f *an.Func, e ast.Expr) bool {
+		id, ok := e.(*ast.Ident)
+		return ok && c08ObjOf(info, id) == packed
+	}, true) {
+		as, ok := s.Node.(*ast.AssignStmt)
+		if !ok || len(as.Lhs) != 1 || len(as.Rhs) != 1 || s.Fn != k {
+			o.FailAt(k.ID+"#list-assignment", s.Where(), "unexpected assignment of the packed list: %s", s.String())
+			continue
+		}
+		rhs := ast.Unparen(as.Rhs[0])
+		c, isCall := rhs.(*ast.CallExpr)
+		switch {
+		case k.Canon(rhs) == "$p2":
+			// starts as the typed records
+		case isCall && an.CalleeID(info, c) == "builtin.make" && len(c.Args) >= 2 && k.Canon(c.Args[1]) == "0":
+			// fresh empty list
+		case isCall && an.CalleeID(info, c) == "builtin.append" && len(c.Args) == 2 && c.Ellipsis.IsValid():
+			if a0, ok := ast.Unparen(c.Args[0]).(*ast.Ident); !ok || info.Uses[a0] != packed {
+				o.FailAt(k.ID+"#list-assignment", s.Where(), "the packed list is rebuilt from another slice: %s", s.String())
+				continue
+			}
+			switch got := k.Canon(c.Args[1]); got {
+			case "$p2":
+				addTyped = append(addTyped, s)
+			case unknown:
+				addUnknown = append(addUnknown, s)
+			default:
+				o.FailAt(k.ID+"#list-content", s.Where(), "the packed list receives %s, expected the typed records ($p2) or %s", got, unknown)
+			}
+		default:
+			o.FailAt(k.ID+"#list-assignment", s.Where(), "unexpected assignment of the packed list: %s", s.String())
+		}
+	}
+	empty := an.Cmp(an.Len(an.Param(0)), an.EQ, an.IntConst(0), "the stored stream is empty")
+	unparsable := an.IsNil(canonTerm(`^`+regexpQuote(existing)+`#1$`), false, "the stored stream does not parse")
+	mustDoUnless(o, k, "append of the typed records to the fresh list", addTyped, pk, empty, unparsable)
+	mustDoUnless(o, k, "append of the unknown records", addUnknown, pk, empty, unparsable)
+	// the existing records: only the known types are removed, nothing else
+	// touches the map
+	var exObj types.Object
+	ast.Inspect(k.Body, func(n ast.Node) bool {
+		if as, ok := n.(*ast.AssignStmt); ok && len(as.Rhs) == 1 && ast.Unparen(as.Rhs[0]) == ex[0].Node {
+			if id, ok := as.Lhs[0].(*ast.Ident); ok {
+				exObj = c08ObjOf(info, id)
+			}
+		}
+		return true
+	})
+	if exObj == nil {
+		o.FailAt(k.ID+"#existing-unbound", ex[0].Where(), "the existing records are not bound to a local")
+		return
+	}
+	loopVisitsAll(o, k, `^\$p1$`)
+	deletes, conv := 0, 0
+	var stack []ast.Node
+	ast.Inspect(k.Body, func(n ast.Node) bool {
+		if n == nil {
+			stack = stack[:len(stack)-1]
+			return true
+		}
+		stack = append(stack, n)
+		id, ok := n.(*ast.Ident)
+		if !ok || info.Uses[id] != exObj {
+			return true
+		}
+		par := stack[len(stack)-2]
+		if c, ok := par.(*ast.CallExpr); ok && len(c.Args) > 0 && c.Args[0] == ast.Expr(id) {
+			switch an.CalleeID(info, c) {
+			case "builtin.delete":
+				deletes++
+				if hdr := enclosingLoopHeader(k, c); hdr != "$p1" || len(c.Args) != 2 || k.Canon(c.Args[1]) != "$elem($p1)" {
+					o.FailAt(k.ID+"#removed-types", k.Where(c.Pos()), "records are removed by %s inside the loop over %q, expected delete(existing, knownType) for each of the known types", an.Text(c), hdr)
+				}
+				return true
+			case "lnwire.TlvMapToRecords":
+				conv++
+				return true
+			}
+		}
+		o.FailAt(k.ID+"#existing-touched", k.Where(id.Pos()), "the existing records are used other than by delete(existing, knownType) and TlvMapToRecords(existing): %s", an.Text(par))
+		return true
+	})
+	if deletes != 1 || conv != 1 {
+		o.FailAt(k.ID+"#removals", k.Where(k.Body.Pos()), "expected one removal of known types from the existing records and one conversion of the rest, found %d and %d", deletes, conv)
+	}
+	var ns []string
+	for _, s := range append(addTyped, addUnknown...) {
+		ns = append(ns, s.Where())
+	}
+	sort.Strings(ns)
+	o.Site("%s: typed + (existing - known) packed; appends at %v", k.ID, ns)
 }
